@@ -17,7 +17,7 @@ def fnmatch_suite(ctx: Ctx, n: int, suite: str = "fnmatch"):
     cases = []
     fixed = [("model/w", "model/**"), ("model_ema/w", "model/**"), ("model", "model/**"), ("a/b", "*/b"), ("a/b", "a/?"), ("ab", "[a]?"),
              ("a", "[!a]"), ("[a", "[a"), ("a]", "a]"), ("x", "[]"), ("x", "[!]"), ("-", "[a-]"), ("b", "[a-c]"), ("", ""), ("", "*"), ("a", ""),
-             ("s/r0", "s/r*"), ("s_ema/r0", "s/r*"), ("ss/w", "s/**"), ("s%2Fx/w", "s/**"), ("a*b", "a[*]b"), ("a?b", "a[?]b"), ("a[b", "a[[]b")]
+             ("s/r0", "s/r*"), ("s_ema/r0", "s/r*"), ("ss/w", "s/**"), ("s%2Fx/w", "s/**"), ("a/bias", "*/bias"), ("a/bias2", "*/bias"), ("bias", "*bias"), ("x/y/w", "**/w"), ("x/y/w", "*.w"), ("a*b", "a[*]b"), ("a?b", "a[?]b"), ("a[b", "a[[]b")]
     for name, pat in fixed:
         cases.append((name, pat))
     for _ in range(n):
